@@ -2,6 +2,7 @@ package exec
 
 import (
 	"fmt"
+	"os"
 	"runtime/debug"
 	"go/constant"
 	"go/token"
@@ -627,6 +628,9 @@ var skipInit = map[string]bool{
 	"compress/zlib": true, "hash/adler32": true, "io/ioutil": false, "log/slog": true, "log/internal": true,
 }
 
+// RunInit makes the executor run the init of a package that is skipped by default.
+func RunInit(path string) { skipInit[path] = false }
+
 func isPkgInit(fn *ssa.Function) bool {
 	return fn.Pkg != nil && fn.Name() == "init" && fn.Signature.Recv() == nil && fn.Pkg.Func("init") == fn && fn.Parent() == nil
 }
@@ -820,8 +824,16 @@ func (e *Engine) runFrame(fr *frame) {
 		}
 		for _, instr := range instrs[firstNonPhi:] {
 			fr.curInstr = instr
+			if traceFn != "" && strings.Contains(fr.fn.String(), traceFn) {
+				fmt.Fprintf(os.Stderr, "TRACE %s: %v\n", fr.fn.Name(), instr)
+			}
 			if e.visitInstr(fr, instr) {
 				return
+			}
+			if traceFn != "" && strings.Contains(fr.fn.String(), traceFn) {
+				if v, ok := instr.(ssa.Value); ok {
+					fmt.Fprintf(os.Stderr, "TRACE    = %s\n", toStringDebug(fr.env[v]))
+				}
 			}
 		}
 	}
@@ -844,6 +856,9 @@ func (e *Engine) doRecover(caller *frame) Value {
 }
 
 var _ = token.NoPos
+
+// traceFn (env SYMGO_TRACE): print every instruction executed in functions whose name contains it.
+var traceFn = os.Getenv("SYMGO_TRACE")
 
 
 // SymPtr is a pointer to an element of a slice/array of scalars selected by a symbolic
